@@ -201,7 +201,7 @@ static void observe(End &e, const char *when, bool end_of_op = false) {
     if (e.cb_w && e.prev_out > e.wlow && out <= e.wlow) e.w_owed = true;
   }
   if (M19() && e.rd_done && (e.n_eof_r || W->kind == K_PAIR) && !(e.nl > 1 && verif_known("C19/data-after-eof-filter")))
-    CHECK(in_total(e) <= e.total_at_eof, e.nl > 1 ? "C19/data-after-eof-filter" : "C19/data-after-eof", "%s: end %c obtained %llu more byte(s) after EOF was reported for reading", when, 'A' + e.id, (unsigned long long)(in_total(e) - e.total_at_eof));
+    CHECK(in_total(e) <= e.total_at_eof + rechunk_slack(e), e.nl > 1 ? "C19/data-after-eof-filter" : "C19/data-after-eof", "%s: end %c obtained %llu more byte(s) after EOF was reported for reading", when, 'A' + e.id, (unsigned long long)(in_total(e) - e.total_at_eof));
   e.prev_len = len; e.prev_out = out; if (end_of_op) e.hi_excuse = false;   // a FLUSH/FINISHED flush excuses growth for the whole op, callbacks included
 }
 static void observe_all(const char *when) { observe(W->e[0], when, true); observe(W->e[1], when, true); }
@@ -335,6 +335,15 @@ static void cb_common(End &e, struct bufferevent *bev, const char *which, bool s
 }
 
 // a drawn follow-up action inside a callback (0 = nothing more)
+// known finding: the filter's callbacks on the underlying bufferevent run the user's callbacks without holding a reference on
+// the filter; freeing a non-deferred filter from inside its read callback lets the refcount hit 0 mid-flight, the watermark
+// re-check after the callback (bufferevent_trigger) then increfs/decrefs it again -> unlink/finalize run twice -> refcount assert.
+static const char *KEY_FILTER_REF = "assert:bufferevent_decref_and_unlock_:bufev_private->refcnt_>_0";
+static bool free_in_cb_excluded(End &x) {
+  if (!(x.live && x.nl > 1 && !(x.L[x.nl - 1].opts & BEV_OPT_DEFER_CALLBACKS))) return false;
+  if (verif_known(KEY_FILTER_REF)) { verif_known_skipped(KEY_FILTER_REF); return true; }
+  return false;
+}
 static void in_cb_action(End &e, Src &s, const char *where) {
   if (W->settling || e.cbs_this_turn > 12) return;
   int n = M19() ? 9 : 6;
@@ -345,10 +354,10 @@ static void in_cb_action(End &e, Src &s, const char *where) {
     case 3: if (e.live) do_enable(e, EV_READ | EV_WRITE, where); break;
     case 4: if (e.live && s.chance(1, 2)) { size_t lo = draw_mark(s), hi = draw_mark(s); do_setwatermark(e, EV_READ, lo, hi, where); } break;
     case 5: if (peer(e).live && !W->settling) app_write(peer(e), 1 + s.below(300), where); break;
-    case 6: W->in_cb_free = true; app_free(e, where); break;
+    case 6: if (!free_in_cb_excluded(e)) { W->in_cb_free = true; app_free(e, where); } break;
     case 7: if (e.live) { W->in_cb_setcb = true; bool r = s.flag(), w = s.flag(), ev = s.flag();
         set_cbs(e, r, w, ev); } break;
-    case 8: if (peer(e).live) { W->in_cb_free = true; app_free(peer(e), where); } break;
+    case 8: if (peer(e).live && !free_in_cb_excluded(peer(e))) { W->in_cb_free = true; app_free(peer(e), where); } break;
   }
 }
 
@@ -418,7 +427,7 @@ static void on_event(struct bufferevent *bev, short what, void *arg) {
     }
     if (rdir) {
       // deferred order: data that arrived before the EOF/ERROR must have been announced by a read callback first
-      if (M19() && e.cb_r && !e.low_excuse && in_total(e) > e.total_at_last_rcb && inlen(bev) >= e.rlow)
+      if (M19() && e.cb_r && in_total(e) > e.total_at_last_rcb && inlen(bev) >= e.rlow)
         VERIF_FAIL("C19/eof-before-read-callback", "end %c: EOF/ERROR for reading reported while %llu newly arrived byte(s) were never announced by a read callback (callbacks out of order)", 'A' + e.id, (unsigned long long)(in_total(e) - e.total_at_last_rcb));
       // orderly end of stream: every byte the peer put on the wire (or handed over) before its shutdown is already here
       if (M17() && (what & BEV_EVENT_EOF)) {
@@ -497,9 +506,8 @@ static bool pair_finish_excluded(End &e, short io) {
   if ((io & EV_WRITE) && p.live && p.nl == 1 && p.rhigh) hit = true;
   if ((io & EV_READ) && e.nl == 1 && e.rhigh) hit = true;
   if (!hit) return false;
-  const char *k = M17() ? KEY_PAIR_FINISH : M19() ? "C19/data-after-eof" : nullptr;
-  if (M18()) return true;                       // not the subject of C18: always avoided there
-  if (k && verif_known(k)) { verif_known_skipped(k); return true; }
+  if (!M17()) return true;                      // precondition outside C17 (the defect is C17's subject: C17/pair-finish-leaves-output)
+  if (verif_known(KEY_PAIR_FINISH)) { verif_known_skipped(KEY_PAIR_FINISH); return true; }
   return false;
 }
 struct TurnPre { bool armed[2]; bool src_avail[2]; };
@@ -550,6 +558,7 @@ static void settle() {
     for (int i = 0; i < 2; i++) { End &e = W->e[i]; if (!e.live) continue;
       // one flush call moves data up by one layer only (be_filter_flush handles its own layer before the lower one)
       for (int k = 1; k < e.nl; k++) { W->e[0].hi_excuse = W->e[1].hi_excuse = true; bufferevent_flush(top(e), EV_READ | EV_WRITE, BEV_FLUSH); }
+      if (e.nl > 1) for (int k = 0; k < 2; k++) if (W->e[k].live) W->e[k].total_at_last_rcb = in_total(W->e[k]);   // a flush moves data without a read callback
       app_read(e, (size_t)-1, "settle"); }
     do_turn(EVLOOP_NONBLOCK, "settle");
     for (int i = 0; i < 2; i++) if (W->e[i].live) app_read(W->e[i], (size_t)-1, "settle");
